@@ -43,3 +43,20 @@ Theorem C01_runs_are_valid_histories :
   valid cm honest (abs H cm honest cfg st_wm st_shut st_fresh st_lead run) /\ CI H cm honest cfg st_wm st_shut st_fresh st_lead run.
 Proof. exact run_valid. Qed.
 Print Assumptions C01_runs_are_valid_histories.
+
+(* the full statement is refuted: a run of the model (four members of weight 1, member 1 Byzantine, every signature of
+   a correct member genuine) in which members 2 and 3 commit different blocks at one height. The same script forks
+   the real nodes (harness stream "worldkf1"; known finding KF-1). *)
+From LH Require Import WorldKF1.
+Theorem C01_full_statement_refuted :
+  exists H cm honest cfg st_wm st_shut st_fresh st_lead run i j b1 b2,
+    total cm < W64 /\ (Z.of_N (wsum (fun i => negb (honest i)) cm) <= specF cm)%Z /\ (forall k, c_me (cfg k) = k) /\
+    wrun H cm honest cfg st_wm st_shut st_fresh st_lead run /\ good cm honest i /\ good cm honest j /\
+    tc_commit (nstate H cm cfg st_wm st_shut st_fresh st_lead i run) = Some b1 /\
+    tc_commit (nstate H cm cfg st_wm st_shut st_fresh st_lead j run) = Some b2 /\ b_id b1 <> b_id b2.
+Proof. exact agreement_refuted. Qed.
+Print Assumptions C01_full_statement_refuted.
+
+Theorem C01_refuting_run_is_excluded_by_the_hypothesis : ~ no_standalone_preprepare_above_view0 fork_run.
+Proof. exact fork_run_has_standalone_preprepare. Qed.
+Print Assumptions C01_refuting_run_is_excluded_by_the_hypothesis.
